@@ -273,7 +273,11 @@ func (g *Gen) history() []string {
 		}
 	}
 	if g.p.LongNames && r.Intn(5) == 0 {
-		g.namePool = append(g.namePool, "L"+strings.Repeat("n", 4100+r.Intn(200)))
+		n := 4100 + r.Intn(200)
+		if r.Intn(4) == 0 {
+			n = 66000 + r.Intn(1000) // a root record longer than 64 KiB
+		}
+		g.namePool = append(g.namePool, "L"+strings.Repeat("n", n))
 	}
 	g.emit("reset")
 	cfg := 0
@@ -918,6 +922,14 @@ func (g *Gen) history() []string {
 				g.emit("set %d %s %s %s %d", s.sid, hn, hx([]byte(fmt.Sprintf("z%03d", i))), hx([]byte{byte('0' + i%10)}), pr)
 			}
 			g.emit("visit %d %s asc %s 0 -1", s.sid, hn, hx([]byte("z060")))
+			// everything that walks to an end of the chain
+			g.emit("min %d %s %d", s.sid, hn, r.Intn(2))
+			g.emit("max %d %s %d", s.sid, hn, r.Intn(2))
+			g.emit("len %d %s", s.sid, hn)
+			if p.Blocks > 0 {
+				g.emit("blocks %d %s %d %s", s.sid, hn, r.Intn(2), []string{"id", "rev", "rand"}[r.Intn(3)])
+				g.emit("random %d %s", s.sid, hn)
+			}
 			if !s.mem || true {
 				ns := &gstore{sid: g.nextSid, fid: g.nextFid, names: map[string]bool{}}
 				g.nextSid++
